@@ -20,6 +20,10 @@ SHAPES["wide"] = dict(nodes={"a": (1, []), "b": (2, []), "c": (3, []), "d": (4, 
 FAILABLE = {"indep": ["f", "k"], "forkjoin": ["p", "q"]}
 
 
+def tag_of(ev):
+    return ev[3] if ev[0] == "Join" else ev[2]
+
+
 def ancestors(nodes, n):
     out, todo = set(), list(nodes[n][1])
     while todo:
@@ -30,12 +34,27 @@ def ancestors(nodes, n):
     return out
 
 
-def run_shape(shape, fails, choices, max_concurrent=None, x=1):
+def run_shape(shape, fails, choices, max_concurrent=None, x=1, warm_rerun=False, all_complete=False):
     E.reset()
     R.clear()
     d = E.scratch()
     try:
-        res, err, ev = S.run_async(SHAPES[shape]["make"](x, fails), d, choices, max_concurrent)
+        if warm_rerun:
+            # first a plain run (fills the cache), then the run under test with rerun=True
+            S.run_async(SHAPES[shape]["make"](x, fails), d, (), max_concurrent)
+            R.clear()
+            E.reset()
+            S.reset(choices)
+            S.STATE["all_complete"] = bool(all_complete)
+            sub = S.submitter(d, max_concurrent)
+            res = err = None
+            try:
+                res = sub(SHAPES[shape]["make"](x, fails), raise_errors=True, rerun=True)
+            except Exception as e:
+                err = e
+            ev = list(S.STATE["events"])
+        else:
+            res, err, ev = S.run_async(SHAPES[shape]["make"](x, fails), d, choices, max_concurrent)
     finally:
         E.cleanup(d)
     stats = dict(S.STATE)
@@ -48,7 +67,7 @@ def c14(shape, fail_bits, choices):
     res, err, ev, stats = run_shape(shape, fails, choices)
     T.reach()
     nodes = spec["nodes"]
-    tags = {b[2] for b in R.LOG if b[0] in ("Node", "Join")}
+    tags = {tag_of(b) for b in R.LOG if b[0] in ("Node", "Join")}
     tag2name = {t: n for n, (t, _) in nodes.items()}
     executed = {tag2name[t] for t in tags}
     should = {n for n in nodes if not (ancestors(nodes, n) & fails)}
@@ -75,12 +94,12 @@ def c14(shape, fail_bits, choices):
     return None
 
 
-def c15(shape, choices, max_concurrent=None):
+def c15(shape, choices, max_concurrent=None, warm_rerun=False, all_complete=False):
     """no faults: starts only after consumed jobs finished ok; every job exactly once"""
     spec = SHAPES[shape]
-    res, err, ev, stats = run_shape(shape, set(), choices, max_concurrent)
+    res, err, ev, stats = run_shape(shape, set(), choices, max_concurrent, warm_rerun=warm_rerun, all_complete=all_complete)
     T.reach()
-    desc = "%s, schedule %s, max_concurrent %s" % (shape, list(choices), max_concurrent)
+    desc = "%s, schedule %s, max_concurrent %s%s" % (shape, list(choices), max_concurrent, ", rerun on a warm cache" if warm_rerun else "")
     if err is not None:
         return "%s: failed: %r" % (desc, err)
     nodes = spec["nodes"]
@@ -96,7 +115,7 @@ def c15(shape, choices, max_concurrent=None):
             finished.add(name)
     counts = {}
     for b in R.LOG:
-        counts[b[2]] = counts.get(b[2], 0) + 1
+        counts[tag_of(b)] = counts.get(tag_of(b), 0) + 1
     tag2name = {t: n for n, (t, _) in nodes.items()}
     if sorted(tag2name[t] for t in counts) != sorted(nodes) or any(c != 1 for c in counts.values()):
         return "%s: body execution counts %r (every job exactly once)" % (desc, {tag2name.get(t, t): c for t, c in counts.items()})
